@@ -33,7 +33,7 @@ type c02Cand struct {
 
 func CheckC02(l *Lab, verifDir string) int {
 	rep := NewReport("C02", l.Tier, l.Seed, "exploration", verifDir)
-	rep.Rule = "candidate cookies are presented to the real binary (handshake + tunnel-create, status observed): tokens minted by the real /connect flow, every single-character substitution (all 63 alternatives at sampled positions; thorough: every position) and single-bit flip of their three segments, truncations, empty / junk strings, re-signing under other algorithms (none, HS384, HS512, RS256-as-HMAC) and other keys (empty, session key, JWKS modulus, near keys), header alg lying about the MAC, payloads re-signed under the right key with iss changed or missing and exp at -1h/-180s/-30s/+1h/missing, nbf in the future, nested and JSON-serialised JWS, duplicated segments; the right-key rejects again after bursts of valid presentations (what one cookie check leaves behind must not complete the next cookie); a cookie that leaves the leeway while the connection idles between handshake and tunnel-create; a second configuration with the smart-card capability enabled where handshakes negotiate SC only / PAA only / both before bad and minted cookies are presented; crossed with IdP conditions (valid, unknown token, revoked after a successful use, userinfo 500, connection reset). Oracle (own HMAC/base64/JSON code): accepted => semantically valid; fresh minted => accepted; rejected => cookie-access-denied status and the tunnel ends; minted exp <= receipt time + 300 s. non-trivial = the candidate reached the gateway and a tunnel-create response or end was observed; distinct = candidate class x mutation x verdict"
+	rep.Rule = "candidate cookies are presented to the real binary (handshake + tunnel-create, status observed): tokens minted by the real /connect flow, every single-character substitution (all 63 alternatives at sampled positions; thorough: every position) and single-bit flip of their three segments, truncations, empty / junk strings, re-signing under other algorithms (none, HS384, HS512, RS256-as-HMAC) and other keys (empty, session key, JWKS modulus, near keys), header alg lying about the MAC, payloads re-signed under the right key with iss changed or missing and exp at -1h/-180s/-30s/+1h/missing, nbf in the future, nested and JSON-serialised JWS, duplicated segments; the right-key rejects again after bursts of valid presentations (what one cookie check leaves behind must not complete the next cookie); a cookie that leaves the leeway while the connection idles between handshake and tunnel-create; a configuration holding query-token / user-token / session keys as well, where the minted claims are re-signed under each of those keys with and without key-id headers naming them; a second configuration with the smart-card capability enabled where handshakes negotiate SC only / PAA only / both before bad and minted cookies are presented; crossed with IdP conditions (valid, unknown token, revoked after a successful use, userinfo 500, connection reset). Oracle (own HMAC/base64/JSON code): accepted => semantically valid; fresh minted => accepted; rejected => cookie-access-denied status and the tunnel ends; minted exp <= receipt time + 300 s. non-trivial = the candidate reached the gateway and a tunnel-create response or end was observed; distinct = candidate class x mutation x verdict"
 	rep.Assume("the harness knows the configured signing key; 'valid but unusual' candidates (no exp, nbf in the future, mutants decoding to identical bytes, -30 s inside the leeway) are recorded, not judged")
 	f, err := l.NewFixture(FixtureOpts{Kind: "openid"})
 	if err != nil {
@@ -303,6 +303,40 @@ func CheckC02(l *Lab, verifDir string) int {
 			}
 		}
 		fs.Close()
+	}
+
+	// ---- a gateway that holds several keys (query-token, user-token signing and encryption, session):
+	// only the access-cookie signing key makes an access cookie, whatever the token's header names
+	{
+		qk, uk, ek, sk := "query-token-signing-key-0123456789", "user-token-signing-key-0123456789a", "user-token-encrypt-key-012345678", "session-key-session-key-session-"
+		fk, err := l.NewFixture(FixtureOpts{Kind: "openid", IdP: f.IdP, Mutate: func(c *GWConfig) {
+			c.QuerySigningKey, c.UserSigningKey, c.UserEncKey, c.SessionKey = StrP(qk[:32]), StrP(uk[:32]), StrP(ek[:32]), StrP(sk[:32])
+		}})
+		if err != nil {
+			rep.Inconclusive("several-keys fixture: " + err.Error())
+		} else {
+			minted := ""
+			var mc map[string]any
+			if file, _, err := NewBrowser(fk.GW, "").Login("keysuser", "host="+fk.H1.Addr()); err == nil {
+				minted = file.Settings["gatewayaccesstoken"]
+				mc = JudgeCookie(minted, []byte(Key32a)).Claims
+			}
+			if minted == "" || mc == nil {
+				rep.Inconclusive("several-keys fixture: no minted cookie")
+			} else {
+				c02Present(rep, fk, c02Cand{Name: "several keys configured, minted cookie", Class: "several-keys", Cookie: minted, Want: "accept"})
+				for kn, key := range map[string]string{"query-token signing key": qk[:32], "user-token signing key": uk[:32], "user-token encryption key": ek[:32], "session key": sk[:32]} {
+					for _, hdr := range []map[string]any{nil, {"kid": "query"}, {"kid": "user"}, {"kid": "paa"}, {"kid": "usertoken"}, {"kid": "0"}, {"kid": "1"}, {"kid": key}, {"typ": "JWT", "kid": "querytoken"}} {
+						c02Present(rep, fk, c02Cand{Name: fmt.Sprintf("minted claims re-signed under the %s, extra header %v", kn, hdr), Class: "several-keys", Cookie: SignHS("HS256", "HS256", []byte(key), hdr, mc), Want: "reject"})
+					}
+				}
+				for _, hdr := range []map[string]any{{"kid": "query"}, {"kid": "user"}, {"kid": "paa"}, {"kid": "nonsense"}} {
+					// the right key under any key id stays the right key
+					c02Present(rep, fk, c02Cand{Name: fmt.Sprintf("minted claims re-signed under the access-cookie key, extra header %v", hdr), Class: "several-keys", Cookie: SignHS("HS256", "HS256", []byte(Key32a), hdr, mc), Want: ""})
+				}
+			}
+			fk.Close()
+		}
 	}
 
 	// ---- IdP conditions (sequential: they change the IdP)
